@@ -11,6 +11,7 @@ import (
 	mrand "math/rand"
 	"strconv"
 
+	"github.com/ldclabs/cose/cose"
 	"github.com/ldclabs/cose/iana"
 	"github.com/ldclabs/cose/key"
 	"github.com/ldclabs/cose/key/aesccm"
@@ -63,9 +64,32 @@ func execConv(op string, a []string) string {
 			k.Kty() != iana.KeyTypeOKP || int(k.Alg()) != iana.AlgorithmEdDSA {
 			return "private key members wrong: " + cborOf(k)
 		}
+		// the imported key owns its octets: writing to the source values afterwards changes nothing
+		{
+			seed2 := append([]byte{}, seed...)
+			priv2 := append(goed25519.PrivateKey{}, goPriv...)
+			ka, _ := ed25519.KeyFromSeed(seed2)
+			kb, _ := ed25519.KeyFromPrivate(priv2)
+			// (KeyFromPublic keeps the caller's slice: the code as it stands, no property speaks about it, not checked)
+			for i := range seed2 {
+				seed2[i] ^= 0xa5
+			}
+			for i := range priv2 {
+				priv2[i] = 0
+			}
+			if cborOf(ka) != cborOf(k) || cborOf(kb) != cborOf(k) {
+				return "imported key follows later writes to the source value"
+			}
+		}
 		back, err := ed25519.KeyToPrivate(k)
 		if err != nil || !bytes.Equal(back, goPriv) {
 			return "KeyToPrivate(KeyFromPrivate(p)) != p"
+		}
+		for i := range back { // and the exported value is the caller's own
+			back[i] = 0
+		}
+		if cborOf(k) != cborOf(k2) {
+			return "key follows later writes to the exported private key"
 		}
 		pub, _ := ed25519.KeyFromPublic(goPub)
 		if pub.Has(iana.OKPKeyParameterD) || !sameBytes(pub, iana.OKPKeyParameterX, goPub) {
@@ -114,6 +138,19 @@ func execConv(op string, a []string) string {
 		back, err := ecdsa.KeyToPrivate(k)
 		if err != nil || back.D.Cmp(d) != 0 || back.X.Cmp(ek.x) != 0 || back.Y.Cmp(ek.y) != 0 {
 			return "KeyToPrivate(KeyFromPrivate(p)) != p"
+		}
+		{ // the imported key owns its octets
+			priv2 := &goecdsa.PrivateKey{PublicKey: goecdsa.PublicKey{Curve: ek.curve, X: new(big.Int).Set(ek.x), Y: new(big.Int).Set(ek.y)}, D: new(big.Int).Set(d)}
+			ka, _ := ecdsa.KeyFromPrivate(priv2)
+			kb, _ := ecdsa.KeyFromPublic(&priv2.PublicKey)
+			wantB := cborOf(kb)
+			priv2.D.Add(priv2.D, big.NewInt(1))
+			priv2.X.Add(priv2.X, big.NewInt(1))
+			priv2.Y.SetInt64(0)
+			back.D.SetInt64(1)
+			if cborOf(ka) != cborOf(k) || cborOf(kb) != wantB {
+				return "imported key follows later writes to the source value"
+			}
 		}
 		pub, err := ecdsa.KeyFromPublic(&goPriv.PublicKey)
 		if err != nil || pub.Has(iana.EC2KeyParameterD) {
@@ -323,9 +360,33 @@ func execConv(op string, a []string) string {
 		}
 		return "ok"
 	case "conv.keyset":
-		// conv.keyset <n>: a key set of n signing keys with distinct kids (the last one without kid): look-ups by kid return
-		// exactly the entry with that kid, Signers / Verifiers keep order and length, and the sets convert back
+		// conv.keyset <n> <kidStyle> <opsStyle>: a key set of n signing keys with distinct kids (the last one without kid):
+		// look-ups by kid return exactly the first entry whose kid is byte-equal or nothing, Signers / Verifiers keep order and
+		// length whatever the keys' key_ops, the sets convert back, and a COSE_Sign made with ks.Signers() verifies with
+		// ks.Verifiers() tagged, untagged and CWT-tagged.
+		//   kidStyle 0: binary kids; 1: kids differing in letter case only; 2: kids differing in bytes that are not UTF-8
+		//   opsStyle 0: no key_ops; 1: [sign, verify]; 2: [sign]; 3: mixed
 		n, _ := strconv.Atoi(a[0])
+		kidStyle, opsStyle := 0, 0
+		if len(a) > 2 {
+			kidStyle, _ = strconv.Atoi(a[1])
+			opsStyle, _ = strconv.Atoi(a[2])
+		}
+		kidOf := func(i int) []byte {
+			switch kidStyle {
+			case 1:
+				b := []byte("gateway-key")
+				for j := range b {
+					if i>>uint(j%5)&1 == 1 && b[j] >= 'a' && b[j] <= 'z' {
+						b[j] -= 32
+					}
+				}
+				return b
+			case 2:
+				return []byte{0xfe - byte(i), 0x10, 0x20}
+			}
+			return []byte{byte(i), byte(i + 1)}
+		}
 		var ks key.KeySet
 		for i := 0; i < n; i++ {
 			var k key.Key
@@ -334,20 +395,21 @@ func execConv(op string, a []string) string {
 			} else {
 				k, _ = ecdsa.GenerateKey([]int{iana.AlgorithmES256, iana.AlgorithmES384, iana.AlgorithmES512}[i%3])
 			}
-			k.SetKid([]byte{byte(i), byte(i + 1)})
+			k.SetKid(kidOf(i))
 			if i == n-1 {
 				delete(k, iana.KeyParameterKid)
 			}
-			ks = append(ks, k)
-		}
-		for i, k := range ks {
-			got := ks.Lookup(k.Kid())
-			if got == nil || cborOf(got) != cborOf(k) {
-				return fmt.Sprintf("KeySet.Lookup(kid of #%d) wrong", i)
+			style := opsStyle
+			if opsStyle == 3 {
+				style = i % 3
 			}
-		}
-		if ks.Lookup([]byte{0xff, 0xfe}) != nil {
-			return "KeySet.Lookup(unknown kid) returned a key"
+			switch style {
+			case 1:
+				k.SetOps(iana.KeyOperationSign, iana.KeyOperationVerify)
+			case 2:
+				k.SetOps(iana.KeyOperationSign)
+			}
+			ks = append(ks, k)
 		}
 		ss, err := ks.Signers()
 		if err != nil || len(ss) != n {
@@ -357,24 +419,37 @@ func execConv(op string, a []string) string {
 		if err != nil || len(vs) != n {
 			return "Verifiers() wrong length"
 		}
-		msg := []byte("conv")
-		for i, k := range ks {
-			s := ss.Lookup(k.Kid())
-			v := vs.Lookup(k.Kid())
-			if s == nil || v == nil {
-				return fmt.Sprintf("Signers/Verifiers.Lookup(kid of #%d) is nil", i)
-			}
-			sig, err := s.Sign(msg)
-			if err != nil || v.Verify(msg, sig) != nil {
-				return fmt.Sprintf("signer / verifier found for #%d do not belong together", i)
-			}
-			// and they are the i-th ones
-			if sig2, _ := ss[i].Sign(msg); vs[i].Verify(msg, sig2) != nil || v.Verify(msg, sig2) != nil {
-				return fmt.Sprintf("look-up for #%d returned another entry", i)
-			}
+		// probes: every kid in the set, their case / non-UTF-8 variants, the empty kid, an unknown kid
+		probes := [][]byte{nil, {}, {0xff, 0xfe}, []byte("GATEWAY-KEY"), []byte("gateway-keY"), {0xf0, 0x10, 0x20}, {0xff, 0x10, 0x20}, {0x80, 0x10, 0x20}}
+		for i := 0; i < n+1; i++ {
+			probes = append(probes, kidOf(i), bytes.ToUpper(kidOf(i)), bytes.ToLower(kidOf(i)))
 		}
-		if vs.Lookup([]byte{0xff, 0xfe}) != nil || ss.Lookup([]byte{0xff, 0xfe}) != nil {
-			return "Lookup(unknown kid) returned an entry"
+		msg := []byte("conv")
+		for _, p := range probes {
+			want := -1
+			for i, k := range ks {
+				if bytes.Equal(k.Kid(), p) {
+					want = i
+					break
+				}
+			}
+			gotK, gotS, gotV := ks.Lookup(p), ss.Lookup(p), vs.Lookup(p)
+			if want < 0 {
+				if gotK != nil || gotS != nil || gotV != nil {
+					return "Lookup(" + hx(p) + ") returned an entry although no kid is equal"
+				}
+				continue
+			}
+			if gotK == nil || gotS == nil || gotV == nil {
+				return fmt.Sprintf("Lookup(kid of #%d) is nil", want)
+			}
+			if cborOf(gotK) != cborOf(ks[want]) || cborOf(gotS.Key()) != cborOf(ss[want].Key()) || cborOf(gotV.Key()) != cborOf(vs[want].Key()) {
+				return fmt.Sprintf("Lookup(%s) returned another entry than #%d", hx(p), want)
+			}
+			sig, err := gotS.Sign(msg)
+			if err != nil || gotV.Verify(msg, sig) != nil || vs[want].Verify(msg, sig) != nil {
+				return fmt.Sprintf("signer / verifier found for #%d do not belong together", want)
+			}
 		}
 		if len(ss.KeySet()) != n || len(vs.KeySet()) != n {
 			return "KeySet() of signers / verifiers wrong length"
@@ -382,6 +457,26 @@ func execConv(op string, a []string) string {
 		for _, pk := range vs.KeySet() {
 			if pk.Has(iana.EC2KeyParameterD) {
 				return "verifier key set holds a private key"
+			}
+		}
+		// the message level: signed with the set's signers, verified with the set's verifiers
+		ext := []byte("ext")
+		data, err := (&cose.SignMessage[[]byte]{Payload: []byte("payload")}).SignAndEncode(ss, ext)
+		if err != nil {
+			return "SignAndEncode with the set's signers failed"
+		}
+		for _, form := range [][]byte{data, cose.RemoveCBORTag(data), append([]byte{0xd8, 0x3d}, data...)} {
+			m, err := cose.VerifySignMessage[[]byte](vs, form, ext)
+			if err != nil || !bytes.Equal(m.Payload, []byte("payload")) {
+				return "COSE_Sign made with Signers() is not accepted with Verifiers()"
+			}
+			if _, err := cose.VerifySignMessage[[]byte](vs, form, nil); err == nil {
+				return "COSE_Sign accepted under other external data"
+			}
+		}
+		if n > 1 { // and a verifier list that lacks one of the signers does not do
+			if _, err := cose.VerifySignMessage[[]byte](vs[1:], data, ext); err == nil && len(ks[0].Kid()) > 0 {
+				return "COSE_Sign accepted although one signature has no verifier"
 			}
 		}
 		return "ok"
@@ -409,7 +504,7 @@ func genConvOps(r *mrand.Rand, n int) []string {
 				"ecdsa": {iana.AlgorithmES256, iana.AlgorithmES384, iana.AlgorithmES512}, "ecdh": {1, 2, 3, 4}}[fam]
 			out = append(out, fmt.Sprintf("conv.gen %s %d", fam, algs[r.Intn(len(algs))]))
 		default:
-			out = append(out, fmt.Sprintf("conv.keyset %d", 1+r.Intn(5)))
+			out = append(out, fmt.Sprintf("conv.keyset %d %d %d", 1+r.Intn(5), r.Intn(3), r.Intn(4)))
 		}
 	}
 	return out
